@@ -704,7 +704,7 @@ def sc_rule(F, rule_id, file_res, floor=0):
 	n = 0
 	for k, c in sorted(cnt.items()):
 		fl, tail, ad = k
-		if not any(re.search(p, fl.split(':', 1)[1]) for p in file_res):
+		if not any(re.search(p, fl.replace(':', '/src/')) for p in file_res):
 			continue
 		n += c
 		if tail not in tknown.get(fl, ()):
@@ -733,3 +733,98 @@ SC_SCOPE = {
 def sc_for_property(F, pid, rule_id):
 	res, floor = SC_SCOPE[pid]
 	return sc_rule(F, rule_id, res, floor)
+
+# ----------------------------------------------------------------------------- dropped results of fallible in-crate calls
+# A call to a function of this workspace that returns a Result, whose value is neither branched on, returned, stored nor handed on, is an
+# error that is swallowed.  Today's tree has 51 such sites (best-effort enqueues, error paths that already report through handle_error);
+# functions known when the table (rules/provenance_dropped.json) was reviewed must not GAIN one (`?` turned into `let _ =` / `.ok();`).
+_DRC = {}
+_DR_TABLE = None
+
+def dr_table():
+	global _DR_TABLE
+	if _DR_TABLE is None:
+		_DR_TABLE = json.load(open(os.path.join(os.path.dirname(os.path.abspath(__file__)), 'provenance_dropped.json')))
+	return _DR_TABLE
+
+def dr_census(F):
+	if F.dir in _DRC:
+		return _DRC[F.dir]
+	is_res = {}
+	def returns_result(f):
+		if f not in is_res:
+			try:
+				ty = F.func(f).locals[0].get('ty') or ''
+				is_res[f] = ty.startswith('core::result::Result<') or ty.startswith('Result<')
+			except AnchorMissing:
+				is_res[f] = False
+		return is_res[f]
+	cnt = collections.Counter()
+	where = {}
+	total = collections.Counter()
+	for n, r in F.fns.items():
+		if not n.startswith('lightning') or 'ser_macros' in r['file']:
+			continue
+		try:
+			fu = F.func(n)
+		except AnchorMissing:
+			continue
+		fl = r['file'].split('/')[0] + ':' + (r['file'].split('src/')[-1] if 'src/' in r['file'] else r['file'])
+		tail = root_fn(n).rsplit('::', 1)[-1]
+		for b, ci in fu.calls():
+			f = norm(ci.get('f') or '')
+			d = ci.get('dest')
+			if not (f.startswith('lightning') or f.startswith('<lightning')) or not d or len(d) != 1:
+				continue
+			dty = fu.locals[d[0]].get('ty') or ''
+			if not (dty.startswith('core::result::Result<') or dty.startswith('Result<')):
+				continue
+			total[fl] += 1
+			if d[0] == 0:
+				continue
+			st, how = result_consumed(fu, b)
+			if st == 'dropped':
+				k = (fl, tail, f.rsplit('::', 1)[-1])
+				cnt[k] += 1
+				where.setdefault(k, (n, fu.line_of(b)))
+	_DRC[F.dir] = (cnt, where, total)
+	return _DRC[F.dir]
+
+def dr_rule(F, rule_id, file_res, floor=1):
+	import re
+	cnt, where, total = dr_census(F)
+	_, _, known = sc_census(F)
+	tab = dr_table()
+	tcount = {tuple(x[:3]): x[3] for x in tab['counts']}
+	tknown = {k: set(v) for k, v in sc_table()['known'].items()}
+	n = sum(c for fl, c in total.items() if any(re.search(p, fl.replace(':', '/src/')) for p in file_res))
+	if n < floor:
+		return [Result(rule_id, False, 'anchor:dropped-results', 'only %d fallible in-crate calls found in %s (expected >= %d)' % (n, file_res, floor))]
+	out = []
+	for k, c in sorted(cnt.items()):
+		fl, tail, callee = k
+		if not any(re.search(p, fl.replace(':', '/src/')) for p in file_res) or tail not in tknown.get(fl, ()):
+			continue
+		if c > tcount.get(k, 0):
+			fn, line = where[k]
+			out.append(Result(rule_id, False, 'swallowed:%s:%s' % (tail, callee), '%s drops the Result of %s %d time(s) (reviewed: %d): an error of a fallible in-crate call is neither branched on, returned, stored nor handed on' % (tail, callee, c, tcount.get(k, 0)), 1, where=F.where(fn, line)))
+	if not out:
+		out.append(Result(rule_id, True, 'ok:dropped-results', '%d fallible in-crate calls in %s: no reviewed function gained a dropped Result' % (n, '|'.join(file_res)), n))
+	return out
+
+DR_SCOPE = {
+	'C01': ([r'ln/channel\.rs$', r'ln/chan_utils\.rs$'], 50),
+	'C02': ([r'ln/channelmanager\.rs$'], 50),
+	'C03': ([r'ln/outbound_payment\.rs$'], 10),
+	'C07': ([r'chain/channelmonitor\.rs$', r'chain/onchaintx\.rs$', r'chain/package\.rs$'], 10),
+	'C09': ([r'chain/chainmonitor\.rs$', r'ln/channelmanager\.rs$'], 50),
+	'C15': ([r'ln/peer_handler\.rs$', r'ln/peer_channel_encryptor\.rs$'], 10),
+	'C17': ([r'routing/gossip\.rs$', r'routing/utxo\.rs$'], 10),
+	'C18': ([r'offers/'], 20),
+	'C19': ([r'util/persist\.rs$', r'lightning-persister/'], 5),
+	'C20': ([r'lightning-block-sync/'], 5),
+}
+
+def dr_for_property(F, pid, rule_id):
+	res, floor = DR_SCOPE[pid]
+	return dr_rule(F, rule_id, res, floor)
